@@ -123,6 +123,7 @@ var matchBidNotFound = regexp.MustCompile("^.+bid not found.+$")
 
 func (o *order) run(checkForExistingBid bool) {
 	defer o.lc.ShutdownCompleted()
+	defer o.vt("done")
 	ctx, cancel := context.WithCancel(context.Background())
 
 	var (
@@ -417,7 +418,6 @@ loop:
 			}
 		}
 	}
-	o.vt("done", "res", reservation != nil, "won", won, "placed", o.bidPlaced)
 }
 
 func (o *order) shouldBid(group *dtypes.Group) (bool, error) {
